@@ -1,6 +1,6 @@
 (* C06 — capabilities exchange gates all traffic and yields the specified outcome
    Statements copied from the proof files; each is closed by `exact`. *)
-From DV Require Prelude.Base Model.Ids Proofs.IdsP Model.Node Proofs.NodeA.
+From DV Require Prelude.Base Model.Ids Proofs.IdsP Model.Node Proofs.NodeA Proofs.NodeB Proofs.NodeC Proofs.NodeD Proofs.NodeF Proofs.NodeG Proofs.NodeH.
 From Coq Require String List Lia Bool Arith ZArith.
 
 Module FromNodeA.
@@ -255,6 +255,50 @@ Theorem C06_cea_never_revives n ds e cid c c' :
 Proof. exact (@NodeA.C06_cea_never_revives n ds e cid c c'). Qed.
 End FromNodeA.
 
+Module FromNodeH.
+Import DV.Prelude.Base DV.Model.Node DV.Proofs.NodeA DV.Proofs.NodeC DV.Proofs.NodeH.
+Local Open Scope Z_scope.
+
+(* C06: a request is handed to an application only by the dispatch of that frame of a network read, and in the
+   state in which the frame is dispatched the connection is not CONNECTED, CLOSING or CLOSED (the gate is open:
+   the capabilities exchange is over and the connection is not being torn down) *)
+Theorem C06_history_gate n0 evs nk e outs i m :
+  List.In (nk, (e, outs)) (strace n0 evs) -> List.In (ODeliver i m) outs ->
+  exists cid ms ds ms1 ms2 c,
+    e = ERecv cid ms /\ ms = (ms1 ++ m :: ms2)%list /\
+    let n' := fst (dispatch_all (read_state nk ds cid) cid ms1) in
+    get_conn n' cid = Some c /\ gated (c_state c) = false /\
+    List.In (ODeliver i m) (snd (dispatch n' cid m)).
+Proof. exact (@NodeH.C06_history_gate n0 evs nk e outs i m). Qed.
+
+(* C06 (one step): a read on a CONNECTED connection that holds no good capabilities-exchange frame of the
+   connection's direction delivers nothing and queues no answer but capabilities-exchange answers on it *)
+Theorem C06_step_gate_connected n ds cid ms c :
+  (cid < n_next_cid n)%nat -> get_conn n cid = Some c -> c_state c = SConnected ->
+  (forall m, List.In m ms -> ~ (if c_recv c then is_good_cer n m else is_good_cea m)) ->
+  List.Forall (gout cid) (snd (step n ds (ERecv cid ms))).
+Proof. exact (@NodeH.C06_step_gate_connected n ds cid ms c). Qed.
+
+(* C06: along a history, a read on a connection that is still CONNECTED (capabilities exchange not completed) and
+   whose frames hold no good CER (inbound) / CEA 2001 (outbound) hands nothing to an application and queues no
+   answer other than capabilities-exchange answers on that connection *)
+Theorem C06_history_gate_connected n0 evs nk cid ms outs c :
+  conns_fresh n0 -> List.In (nk, (ERecv cid ms, outs)) (strace n0 evs) ->
+  get_conn nk cid = Some c -> c_state c = SConnected ->
+  (forall m, List.In m ms -> ~ (if c_recv c then is_good_cer nk m else is_good_cea m)) ->
+  (forall i m, ~ List.In (ODeliver i m) outs) /\
+  (forall j a, List.In (OQueue j a) outs -> o_req a = false -> j = cid /\ o_cmd a = CE).
+Proof. exact (@NodeH.C06_history_gate_connected n0 evs nk cid ms outs c). Qed.
+
+(* C refuted as stated for "ready": the gate is also open on a DISCONNECTING connection (after the peer's DPR), so a
+   request that follows the DPR is still handed to the application *)
+Theorem C06_history_gate_ready_refuted :
+  ~ (forall n ds cid ms c i m,
+       get_conn n cid = Some c -> List.In (ODeliver i m) (snd (step n ds (ERecv cid ms))) ->
+       (forall x, List.In x ms -> m_cmd x <> CE) -> is_ready_state (c_state c) = true).
+Proof. exact NodeH.Examples.C06_history_gate_ready_refuted. Qed.
+End FromNodeH.
+
 Print Assumptions FromNodeA.C06_gate_connected.
 Print Assumptions FromNodeA.C06_gate_closing.
 Print Assumptions FromNodeA.C06_cer_known.
@@ -280,3 +324,7 @@ Print Assumptions FromNodeA.C06_direction.
 Print Assumptions FromNodeA.C06_direction_outbound.
 Print Assumptions FromNodeA.C06_direction_inbound.
 Print Assumptions FromNodeA.C06_cea_never_revives.
+Print Assumptions FromNodeH.C06_history_gate.
+Print Assumptions FromNodeH.C06_step_gate_connected.
+Print Assumptions FromNodeH.C06_history_gate_connected.
+Print Assumptions FromNodeH.C06_history_gate_ready_refuted.
